@@ -237,7 +237,9 @@ func (w *world) opLocker(a *act) {
 		// one sync.Locker shared by several goroutines (each Lock is paired with one Unlock)
 		if w.shared[write] == nil {
 			w.shared[write] = l
+			c.Pub() // the Locker object is handed to other goroutines
 		}
+		c.Sub()
 		l = w.shared[write]
 		c.S.Count("probe:shared-locker")
 	}
